@@ -1600,7 +1600,24 @@ fn oracle_c15(t: &LspTrace, h: &History, stats: &mut Stats) -> Vec<Violation> {
                 let acceptable = resp.get("error").map(|e| !e.is_null()).unwrap_or(false)
                     || resp.get("result").map(|r| r.is_null() || r["data"].as_array().map(|a| a.is_empty()).unwrap_or(false)).unwrap_or(true);
                 if !acceptable {
-                    out.push(viol("C15", "C15/tokens-for-unknown-document".into(), format!("request for never-opened {sym} returned {}", short(resp))));
+                    // a server may also read a never-opened file from the disk on demand: then the answer
+                    // has to be about the file as it is on the simulated disk right now
+                    let on_disk = uri_path(sym).and_then(|p| {
+                        let r = root().display().to_string();
+                        let name = p.strip_prefix(&format!("{r}/ws/")).or_else(|| p.strip_prefix(&format!("{r}/wsl/")))?.to_string();
+                        disk.get(&name).cloned()
+                    });
+                    let data: Vec<u64> = resp["result"]["data"].as_array().map(|a| a.iter().map(|v| v.as_u64().unwrap_or(u64::MAX)).collect()).unwrap_or_default();
+                    let fits_disk = match &on_disk {
+                        Some(d) if d.contains('\r') || d.contains('\u{1a}') => true,
+                        Some(d) => tokenize_program(d, &FileId::default(), &ParseOptions::default()).1.is_empty() && check_tokens(d, &data, &legend, n_modifiers).is_ok(),
+                        None => false,
+                    };
+                    if fits_disk {
+                        stats.count("c15.never_opened_file_answered_from_disk");
+                    } else {
+                        out.push(viol("C15", "C15/tokens-for-unknown-document".into(), format!("request for never-opened {sym} returned {}", short(resp))));
+                    }
                 } else {
                     stats.count("c15.unknown_document_requests");
                 }
